@@ -23,6 +23,11 @@ impl Group for PoolGroup {
             // regression witness (DESIGN §6 D11): the first stream of a new session is open, min_idle = 0, one tick after the timeout
             l(&["pool reset 100 200 0", "pool mk", "pool add 0", "pool open 0", "pool adv 400", "pool state"]),
             l(&["pool reset 50 100 2", "pool mk", "pool mk", "pool mk", "pool add 0", "pool add 1", "pool add 2", "pool adv 300", "pool state", "pool get", "pool get", "pool get", "pool get"]),
+            // an old healthy session and a recently parked one that died: the dead one must not use up the idle minimum (both seq orders)
+            l(&["pool reset 100 600 1", "pool mk", "pool mk", "pool add 1", "pool adv 450", "pool add 0", "pool die 0", "pool adv 250", "pool state", "pool get", "pool state"]),
+            l(&["pool reset 100 600 1", "pool mk", "pool mk", "pool add 0", "pool adv 450", "pool add 1", "pool die 1", "pool adv 250", "pool state", "pool get", "pool state"]),
+            l(&["pool reset 100 300 1", "pool mk", "pool mk", "pool add 0", "pool add 1", "pool adv 250", "pool die 0", "pool adv 100", "pool state", "pool get", "pool state"]),
+            l(&["pool reset 100 300 1", "pool mk", "pool mk", "pool add 0", "pool add 1", "pool adv 250", "pool die 1", "pool adv 100", "pool state", "pool get", "pool state"]),
         ]
     }
 
@@ -57,6 +62,25 @@ impl Group for PoolGroup {
             lines.push("pool state".into());
             if rng.chance(1, 2) { lines.push("pool cleanup".into()); lines.push("pool state".into()); }
             for _ in 0..k { lines.push("pool get".into()); }
+            lines.push("pool state".into());
+            return Case { lines };
+        }
+        if rng.chance(1, 3) {
+            // staggered history: sessions parked at different times (different idle ages at the next pass), in any
+            // seq order; some die while parked (recently or long ago); then time moves across one or more passes
+            let k = rng.range(2, 6);
+            for _ in 0..k { lines.push("pool mk".into()); }
+            let mut order: Vec<u64> = (0..k).collect();
+            for i in (1..order.len()).rev() { let j = rng.below(i as u64 + 1) as usize; order.swap(i, j); }
+            for i in &order {
+                lines.push(format!("pool add {i}"));
+                let gap = *rng.pick(&[0u64, 10, timeout / 2, timeout.saturating_sub(10), timeout, interval]);
+                if gap > 0 && rng.chance(2, 3) { lines.push(format!("pool adv {gap}")); }
+                if rng.chance(1, 4) { lines.push(format!("pool die {}", rng.pick(&order))); }
+            }
+            lines.push(format!("pool adv {}", rng.pick(&[interval, interval + 10, timeout / 2 + 10, timeout, timeout + interval])));
+            lines.push("pool state".into());
+            for _ in 0..rng.range(1, 3) { lines.push("pool get".into()); }
             lines.push("pool state".into());
             return Case { lines };
         }
@@ -97,6 +121,8 @@ impl Group for PoolGroup {
             let mut idle_shadow: Vec<usize> = vec![];
             // sessions handed out by `get` (no longer in the idle map: housekeeping has no business with them)
             let mut taken: Vec<usize> = vec![];
+            // healthy idle sessions that housekeeping closed although that left fewer open idle sessions than the minimum
+            let mut lost: Vec<usize> = vec![];
             let mut bg: Option<tokio::task::JoinHandle<()>> = None;
             for line in &case.lines {
                 let toks: Vec<&str> = line.split_whitespace().collect();
@@ -132,6 +158,11 @@ impl Group for PoolGroup {
                         // (judged after the call: a pass of the reaper that runs concurrently finishes first - the call waits for the pool lock)
                         let healthy: Vec<usize> = idle_shadow.iter().copied().filter(|i| !nodes[*i].session.is_closed()).collect();
                         // O (C13/C12): a request is served by an idle, healthy session whenever one exists
+                        // O (C13): a request that overlaps with no other finds the session the idle minimum was meant to keep
+                        if got.is_none() && !lost.is_empty() {
+                            out.oracle.push(OracleFail { sig: "non_overlapping_request_redials/idle_minimum_not_kept".into(), detail: format!("the request finds no session: housekeeping had closed the healthy idle session(s) {lost:?} below the idle minimum {} (interval {} ms, timeout {} ms)", cfg.2, cfg.0, cfg.1) });
+                        }
+                        if got.is_some() { lost.clear(); }
                         if got.is_none() && !healthy.is_empty() {
                             out.oracle.push(OracleFail { sig: "healthy_idle_session_ignored/get_idle_session".into(), detail: format!("no session returned although the open sessions {healthy:?} are idle in the pool") });
                         }
@@ -205,8 +236,12 @@ impl Group for PoolGroup {
                 if !closed_by_hk.is_empty() {
                     if let Some(p) = pool.as_ref() {
                         let idle_after = p.idle_count().await;
-                        if (idle_after as u64) < cfg.2 {
-                            out.oracle.push(OracleFail { sig: "fewer_than_min_idle/reaper".into(), detail: format!("pool housekeeping closed healthy session(s) {closed_by_hk:?} and left {idle_after} idle session(s), min_idle is {} (interval {} ms, timeout {} ms)", cfg.2, cfg.0, cfg.1) });
+                        // the sessions that count are the usable ones: entries of the idle map that are still open
+                        // (a dead session that merely sits in the map is not an idle session anyone can be given)
+                        let healthy_after = idle_shadow.iter().filter(|i| !nodes[**i].session.is_closed()).count();
+                        if (idle_after as u64) < cfg.2 || ((healthy_after as u64) < cfg.2 && closed_by_hk.iter().any(|i| idle_shadow.contains(i))) {
+                            lost.extend(closed_by_hk.iter().copied().filter(|i| idle_shadow.contains(i)));
+                            out.oracle.push(OracleFail { sig: "fewer_than_min_idle/reaper".into(), detail: format!("pool housekeeping closed healthy session(s) {closed_by_hk:?} and left {idle_after} entries in the idle map, {healthy_after} of them open; min_idle is {} (interval {} ms, timeout {} ms)", cfg.2, cfg.0, cfg.1) });
                         }
                     }
                 }
